@@ -357,7 +357,9 @@ func ResolveEntrypoints(m *ModuleSpec, eps []string) []int {
 		switch {
 		case e == "./...":
 			for i := range m.Pkgs {
-				add(i)
+				if !m.Pkgs[i].InSub { // (the pattern does not cross the boundary of a nested module)
+					add(i)
+				}
 			}
 		case e == ".":
 			for i, p := range m.Pkgs {
